@@ -23,7 +23,8 @@
     `scan_more_statements_nodes`, `scan_more_statements_monotone`, `scan_more_statements_error`.
   * graph level: `monotone_should_edges`, `monotone_should_not_edges`, `monotone_err_edges` generalise the single-edge
     theorems of Props/C12.lean to a finite list of added import edges — with NO side condition on the added pairs (the
-    hypothesis `g.hasEdge u v = false` of `monotone_should` / `monotone_should_not` is not used by their proofs);
+    hypothesis `g.hasEdge u v = false` that `monotone_should` / `monotone_should_not` used to carry was not used by
+    their proofs and has been dropped there as well);
     `monotone_should_le`, `monotone_should_not_le`, `monotone_err_le`: between any two graphs with the same nodes and
     hierarchy, the second with more imports (`GraphLe`).
 
